@@ -80,7 +80,9 @@ def call(entry, payload, ver):
         store = stix2.MemoryStore()
         before = len(store.query())
         res, exc = core.guarded(store.add, payload)
-        if exc is not None and len(store.query()) != before:
+        single = isinstance(payload, dict) and payload.get("type") != "bundle"
+        # a list / bundle is added member by member: members accepted before the failing one legitimately stay
+        if exc is not None and single and len(store.query()) != before:
             return None, AssertionError("store changed by a failed add")
         return res, None   # which exception a *store* raises is outside this property; only "store unchanged" is asserted
     raise AssertionError(entry)
